@@ -121,6 +121,10 @@ pub struct CrashOpts {
 	/// lower bound selector: false = 0 (C02), true = synced transactions (C03b)
 	pub synced_bound: bool,
 	pub tail: bool,
+	/// re-parse the recovered (and drained) directory with the raw layout reader (C14)
+	pub layout: bool,
+	/// tolerate (and count) the known-finding shapes; false = strict (regression cases)
+	pub tolerate_known: bool,
 }
 
 /// The remaining commits of the scenario after the stop point serve as the tail.
@@ -157,6 +161,7 @@ pub fn check_stop_point(sc: &Scenario, sp: &StopPoint, dir: &Path, opts: &CrashO
 	}
 	let wrap = |f: Failure| f.with_case(&CrashCase { sc: sc.clone(), sample_seed: 0, only: Some(sp.clone()) });
 	// the recovered database keeps working
+	let claim_leaks = std::cell::Cell::new(0u64);
 	if opts.tail {
 		let tail = |it: &mut Interp, p: usize| -> Res<()> {
 			let r: Res<()> = (|| {
@@ -168,6 +173,12 @@ pub fn check_stop_point(sc: &Scenario, sp: &StopPoint, dir: &Path, opts: &CrashO
 				it.check_reads(true)?;
 				it.step(&Op::Reopen)?;
 				it.check_reads(true)?;
+				if opts.layout {
+					it.ensure_room_for_close()?;
+					it.close();
+					let rep = crate::layout::check_dir_opts(&it.cfg, &it.dir, Some(&*it), opts.tolerate_known).map_err(|e| Failure::new(format!("layout:{}", e.sig), e.detail))?;
+					claim_leaks.set(claim_leaks.get() + rep.claim_leaks);
+				}
 				Ok(())
 			})();
 			r.map_err(|f| wrap(Failure::new(format!("after-recovery:{}", f.sig), format!("recovered at prefix {p}: {}", f.detail))))
@@ -206,6 +217,10 @@ pub fn check_stop_point(sc: &Scenario, sp: &StopPoint, dir: &Path, opts: &CrashO
 				return Err(first_err.unwrap())
 			}
 		}
+	}
+	if claim_leaks.get() > 0 {
+		out.count("excluded_known:multitree-claimed-slots-leaked-by-crash", claim_leaks.get());
+		out.label("known-finding-shape-tolerated");
 	}
 	drop(it);
 	let _ = std::fs::remove_dir_all(&img);
@@ -326,20 +341,20 @@ pub fn run_crash_case(case: &CrashCase, dir: &Path, opts: &CrashOpts) -> CaseRes
 
 fn run(ctx: &Ctx) {
 	let thorough = ctx.tier == "thorough";
-	let opts = CrashOpts { cap: if thorough { 400 } else { 150 }, rec_depth: if thorough { 3 } else { 2 }, synced_bound: false, tail: true };
+	let opts = CrashOpts { cap: if thorough { 400 } else { 150 }, rec_depth: if thorough { 3 } else { 2 }, synced_bound: false, tail: true, layout: false, tolerate_known: true };
 	let n = scaled(ctx, 56, 2_800);
-	if !ctx.run_prop("small", n, crash_case(3, 4, 12, true), |c, dir| run_crash_case(c, dir, &opts)) {
+	if !ctx.run_prop_shrink("small", n, 60, crash_case(3, 4, 12, true), |c, dir| run_crash_case(c, dir, &opts)) {
 		return
 	}
 	if thorough {
 		let n = scaled(ctx, 0, 700);
-		ctx.run_prop("large", n, crash_case(4, 12, 40, true), |c, dir| run_crash_case(c, dir, &opts));
+		ctx.run_prop_shrink("large", n, 60, crash_case(4, 12, 40, true), |c, dir| run_crash_case(c, dir, &opts));
 	}
 }
 
 fn replay(ctx: &Ctx, path: &Path) -> Result<(), Failure> {
 	let (_sub, case): (String, CrashCase) = load_replay(path).map_err(|e| Failure::new("bad-replay", e))?;
 	let dir = ctx.case_dir();
-	let opts = CrashOpts { cap: 400, rec_depth: 2, synced_bound: false, tail: true };
+	let opts = CrashOpts { cap: 400, rec_depth: 2, synced_bound: false, tail: true, layout: false, tolerate_known: true };
 	guarded(|| run_crash_case(&case, &dir, &opts)).map(|_| ())
 }
